@@ -245,11 +245,34 @@ def session_stmt_anomalies(c, o):
     return res
 
 
+def sql_anomalies(sqlrecs):
+    """property-level oracle on the SQL text, independent of the translated builder"""
+    res = []
+    plain = {(x['provider'], x['form']): x.get('sql') for x in sqlrecs if not x['for_update']}
+    for x in sqlrecs:
+        if not x['for_update'] or (x['nowait'] and x['skip_locked']): continue
+        tag = '%s:%s:nowait=%s:skip_locked=%s' % (x['provider'], x['form'], x['nowait'], x['skip_locked'])
+        if 'error' in x:
+            res.append(('for-update-sql-error:' + tag, 'building the SQL of a for_update query fails: %s (%s)' % (x['error'], tag), x)); continue
+        sql = x['sql'] or ''
+        if x['provider'] == 'sqlite':
+            if sql != plain.get((x['provider'], x['form'])):
+                res.append(('sqlite-for-update-text:' + tag, 'SQLite: the SQL of the locking query differs from the plain query (SQLite has no FOR UPDATE): %r' % sql[-60:], x))
+        else:
+            tail = sql[sql.rfind('FOR UPDATE'):] if 'FOR UPDATE' in sql else ''
+            want = 'FOR UPDATE' + (' NOWAIT' if x['nowait'] else '') + (' SKIP LOCKED' if x['skip_locked'] else '')
+            if tail.strip() != want:
+                res.append(('for-update-text:' + tag, '%s: the locking query ends with %r, expected %r' % (x['provider'], tail.strip() or sql[-40:], want), x))
+    return res
+
+
 def failures_of(r):
     fl, seen = [], set()
     def add(key, what, payload):
         if key in seen: return
         seen.add(key); fl.append(Failure(key, what, payload))
+    for key, what, x in sql_anomalies(r['sql']):
+        add(key, what, {'kind': 'sql', 'case': x, 'key': key})
     for c, o in zip(r['rcases'], r['routs']):
         if 'harness_error' in o:
             add('rmw-schedule-driver-error', 'driver failed: %s' % o['harness_error'][-300:], {'kind': 'rmw', 'case': c}); continue
@@ -279,13 +302,19 @@ def search(ctx, deep):
         dist['rmw_with_blocking'] += blocked; dist['rmw_same_row_two_sessions'] += shared
         dist['rmw_failed_sessions'] += sum(1 for e in o['effective'] if e[3] not in ('ok', 'skipped', 'noop', 'blocked', 'rolled-back'))
         if blocked or shared: nontriv.add(json.dumps(c['steps']))
-    return Search(evaluations=dist['rmw_schedules'] + len(r['tcases']) + len(r['scases']), failures=fl, nontrivial=len(nontriv), distribution=dist, exhaustive=False,
+    dist['sql_texts'] = len(r['sql'])
+    return Search(evaluations=dist['rmw_schedules'] + len(r['tcases']) + len(r['scases']) + len(r['sql']), failures=fl, nontrivial=len(nontriv), distribution=dist, exhaustive=False,
                   samples=[{'oracle': 'every row ends with 100 x (number of sessions that committed an increment on it); driver-level transactions of different threads never overlap; '
                                       'no write outside / during a foreign transaction; statements of immediate-shape sessions run inside BEGIN IMMEDIATE with the lock held'}])
 
 
 def replay(ctx, data):
     c = data['case']
+    if data.get('kind') == 'sql':
+        recs = cc.run_driver({'mode': 'sql_text', 'providers': [c['provider']], 'forms': [c['form']]})
+        for key, what, x in sql_anomalies(recs):
+            if data.get('key') is None or key == data['key']: return Failure(key, what, data)
+        return None
     if data.get('kind') == 'session':
         o = cc.run_driver({'mode': 'sessions', 'cases': [c]})[0]
         an = [] if 'harness_error' in o else session_stmt_anomalies(c, o)
